@@ -107,6 +107,7 @@ type ObResult struct {
 	Merged         int
 	IfConverted    int
 	StateMerges    int
+	ModelHits      int
 	Spawned        int
 	ImprecisePaths int
 	Reached        map[string]bool
@@ -157,6 +158,7 @@ func (r *ObResult) absorb(o *ObResult) {
 	r.Merged += o.Merged
 	r.IfConverted += o.IfConverted
 	r.StateMerges += o.StateMerges
+	r.ModelHits += o.ModelHits
 	r.Spawned += o.Spawned
 	r.ImprecisePaths += o.ImprecisePaths
 	for k := range o.Reached {
